@@ -421,7 +421,7 @@ def _loop_before(g, sub, later):
     return bool(ln) and g.all_dominate(ln, g.nodes_of(later), g.NORMAL)
 
 
-@rule('C04.e', ['C04', 'C12'], floor=5)
+@rule('C04.e', ['C04', 'C12', 'C10', 'C11'], floor=5)
 def condition_discipline(ctx):
     """SlidingWindowSemaphore: wait() only inside a while whose test reads the guarded
     counter, with the condition held; acquire()/release() of the condition paired
@@ -509,6 +509,13 @@ def permits_come_back(ctx):
     addn = [n for c in adds for n in g.nodes_of(c)]
     ctx.ob(f, 'add_done_callback(release) after acquire on every normal path',
            bool(addn) and g.must_pass(g.nodes_of(acq), addn, [g.exit], g.NORMAL), 'a permit that is not released by the task future leaks (executor wedges)')
+    direct = [c for c in own_calls(f.node) if isinstance(c.func, ast.Attribute) and c.func.attr == 'release' and norm(c.func.value) in (sem, 'self._semaphore')]
+    for c in direct:
+        h = q.in_handler(c)
+        covers_acquire = h is not None and any(acq is x for s_ in h._parent.body for x in ast.walk(s_))
+        in_finally = any(field == 'finalbody' and any(acq is x for s_ in t.body for x in ast.walk(s_)) for t, field in q.enclosing_trys(c))
+        ctx.ob(f, c, not covers_acquire and not in_finally,
+               'this release also runs when the acquire itself failed (e.g. a rejected non-blocking submit): a permit that was never taken is given back and the limit grows')
     subs = [c for c in own_calls(f.node) if (dotted(c.func) or '').endswith('_executor.submit')]
     ctx.ob(f, 'acquire precedes executor.submit', bool(subs) and g.all_dominate(g.nodes_of(acq), [n for c in subs for n in g.nodes_of(c)], g.NORMAL),
            'the task must not be handed to the pool before a permit is held')
@@ -526,3 +533,60 @@ def permits_come_back(ctx):
         b = q.bind_args(ctx, c, cf, f) or {}
         v = b.get('block')
         ctx.ob(cf, c, v is None or (isinstance(v, ast.Constant) and v.value is True), 'package callers must submit with block=True', trivial=True)
+
+
+# field -> lock that must be held at every access outside __init__ (frozen after reading every access)
+GUARDED_FIELDS = {
+    ('utils.CountCallbackInvoker', '_count'): 'self._lock',
+    ('utils.CountCallbackInvoker', '_is_finalized'): 'self._lock',
+    ('manager.TransferCoordinatorController', '_tracked_transfer_coordinators'): 'self._lock',
+    ('futures.TransferCoordinator', '_associated_futures'): 'self._associated_futures_lock',
+    ('futures.TransferCoordinator', '_done_callbacks'): 'self._done_callbacks_lock',
+    ('futures.TransferCoordinator', '_failure_cleanups'): 'self._failure_cleanups_lock',
+}
+# documented unlocked accesses: (function, field) -> reason
+UNLOCKED_OK = {
+    ('futures.TransferCoordinator.failure_cleanups', '_failure_cleanups'): 'read-only property; its one caller (_run_failure_cleanups) holds the lock',
+}
+
+
+@rule('C04.h', ['C04', 'C08', 'C18'], floor=10)
+def shared_bookkeeping_under_its_lock(ctx):
+    """Every access (outside __init__) of the counters/collections that decide when a
+    transfer is finalised, tracked or called back - CountCallbackInvoker._count /
+    _is_finalized, the controller's tracked set, the coordinator's associated futures,
+    done callbacks and failure cleanups - happens while that object's lock is held; the
+    finalise decision of CountCallbackInvoker is taken in the same lock region as the
+    update (no lost or doubled final task)."""
+    for (cq, field), lock in GUARDED_FIELDS.items():
+        cl = ctx.cls(cq)
+        n = 0
+        for m in cl.methods.values():
+            if m.name == '__init__':
+                continue
+            for x in own_nodes(m.node):
+                if isinstance(x, ast.Attribute) and x.attr == field and isinstance(x.value, ast.Name) and x.value.id == 'self':
+                    n += 1
+                    if (m.qualname, field) in UNLOCKED_OK:
+                        ctx.ob(m, f'self.{field} (documented unlocked access)', True, UNLOCKED_OK[(m.qualname, field)], trivial=True)
+                        continue
+                    held = q.locks_held(x)
+                    from ..ir import enclosing_stmt
+                    ctx.ob(m, f'self.{field} @ {short(enclosing_stmt(x), 50)}', lock in held,
+                           f'self.{field} is accessed without {lock} (held: {held}): a concurrent update can be lost or seen half-way')
+        ctx.need(n > 0, f'{cq}.{field} is never accessed')
+    inv = ctx.cls('utils.CountCallbackInvoker')
+    for mname in ('decrement', 'finalize'):
+        m = inv.methods[mname]
+        calls = [c for c, r in q.calls_in(ctx, m) if r.kind == 'open']
+        ctx.ob(m, f'{mname}: the callback is invoked at most at one site', len(calls) == 1, f'{len(calls)} callback sites')
+        for c in calls:
+            gs = q.guards_under_lock(c, 'self._lock')
+            want = 'self._is_finalized and self._count == 0' if mname == 'decrement' else 'self._count == 0'
+            ok = q.guards_imply(gs, want) and 'self._lock' in q.locks_held(c)
+            ctx.ob(m, f'{mname}: callback iff finalized and count == 0, decided under the lock', ok,
+                   f'the final task would be submitted twice or never (guards under lock: {[(norm(e), p) for e, p in gs]})')
+    fin = inv.methods['finalize']
+    st = [n for n in own_nodes(fin.node) if isinstance(n, ast.Assign) and dotted(n.targets[0]) == 'self._is_finalized']
+    ctx.ob(fin, 'finalize: self._is_finalized = True under the lock, before the count test', len(st) == 1 and 'self._lock' in q.locks_held(st[0])
+           and isinstance(st[0].value, ast.Constant) and st[0].value.value is True, 'finalisation flag must be published atomically with the count test')
